@@ -34,13 +34,14 @@ Record case := {
 
 Definition dummy : report :=
   {| r_path := ""; r_target := ""; r_owner := ""; r_rule := 0%N; r_name := ""; r_reporter := ""; r_summary := "";
-     r_details := ""; r_diags := []; r_lfirst := 0%Z; r_llast := 0%Z; r_sev := 0%Z; r_anchor_before := false |}.
+     r_details := ""; r_diags := []; r_lfirst := 0%Z; r_llast := 0%Z; r_sev := 0%Z; r_anchor_before := false;
+     r_rfirst := 0%Z; r_rlast := 0%Z |}.
 
 Definition without_diags (r : report) : report :=
   {| r_path := r_path r; r_target := r_target r; r_owner := r_owner r; r_rule := r_rule r; r_name := r_name r;
      r_reporter := r_reporter r; r_summary := r_summary r; r_details := r_details r;
      r_diags := []; r_lfirst := r_lfirst r; r_llast := r_llast r; r_sev := r_sev r;
-     r_anchor_before := r_anchor_before r |}.
+     r_anchor_before := r_anchor_before r; r_rfirst := r_rfirst r; r_rlast := r_rlast r |}.
 
 Definition entry_matches (stream : list report) (e : entry) (o : obs_entry) : bool :=
   let '(r, dup, dups) := e in
